@@ -15,7 +15,8 @@ C03's column representation (`MemGeff`) and C01's arrays (`InMem`) in between
 is discharged on the domain `Geff.Link.Storable` (valid zarr node names; per column a supported dtype
 other than float16 and rows that are arrays of one shape / one rank) — and everything the backends'
 `write` produces on C03's domains lies in it (`nxWrite_storable`, `sg_storable`), given that attribute
-names are valid node names and array-valued attributes are arrays (`NxStorable`).  The corollaries
+names are valid node names and attribute values are scalars or arrays with `prod shape` leaves, not
+Python `None` (`NxStorable`).  The corollaries
 below therefore carry **no hypothesis about the store**: only the target being fresh. -/
 namespace GeffProps.C03Links
 open Geff.Np Geff.Dicts Geff.Backends Geff.Link GeffProps.C03
